@@ -21,14 +21,17 @@ import time
 from common import Inconclusive, add_violations_from_bad, finish, log
 
 
-def threads(fns):
+def threads(fns, limit=4):
+    """Run callables concurrently, at most `limit` at a time (staggered starts); re-raise the first exception."""
     res, errs = [None] * len(fns), []
+    sem = threading.Semaphore(limit)
 
     def wrap(i, f):
-        try:
-            res[i] = f()
-        except BaseException as e:  # noqa
-            errs.append(e)
+        with sem:
+            try:
+                res[i] = f()
+            except BaseException as e:  # noqa
+                errs.append(e)
     ts = []
     for i, f in enumerate(fns):
         t = threading.Thread(target=wrap, args=(i, f))
@@ -76,7 +79,7 @@ def run(ctx):
 
     # real runs: (config, runs, deep recursions, direct precompile calls per address)
     plan = [("a", 700, 4, 4), ("b", 300, 0, 1), ("c", 300, 0, 1)] if quick else \
-           [("a", 6000, 8, 40), ("a", 6000, 4, 0), ("b", 5000, 4, 10), ("c", 5000, 4, 10)]
+           [("a", 3000, 8, 40), ("a", 3000, 4, 0), ("b", 2500, 4, 10), ("c", 2500, 4, 10)]
     argvs, traces, tables = [], [], []
     for k, (cfg, runs, deep, pre) in enumerate(plan):
         tp = os.path.join(ctx.scratch, "trace%d.ndjson" % k)
